@@ -38,7 +38,7 @@ class Prop(GraphProp):
                          "(world, schedule) family x 9 exception kinds; thorough tier additionally all pairs of faults in "
                          "different operations for four of the worlds")
 
-    profile = {"p_illposed": 0.0, "max_ops": 30}
+    profile = {"p_illposed": 0.0, "max_ops": 30, "p_peek": 0.0, "p_aux_shared": 0.0}
 
     # ------------------------------------------------------------------ seeded part
     def generate(self, r, tier, idx):
